@@ -185,6 +185,25 @@ def run(ctx):
                 ok6 = "urljoin" in u.tags and "base:entry:url" in u.tags and "ref:location" in u.tags
                 ctx.ob(R6, fi.qual, f"resend target provenance {sorted(u.tags)}", ok6,
                        "" if ok6 else "a relative Location is not resolved against the URL that was requested", witness=s.st.witness(), node=s.node)
+    # every other resend of the pool (retry after an error, retry on a status) is made under the caller's flags too: a
+    # retried attempt that may follow redirects although the caller (the manager, always) disabled them is a followed redirect
+    rule, fi, outs = pool
+    others = [s for s in rule.sites if s.kind == "resend" and not (s.args.get("url") is not None and (("location" in s.args["url"].tags) or any(t.startswith("ref:location") or t == "urljoin" for t in s.args["url"].tags)))]
+    ctx.sites(R3, len({s.node.lineno for s in others}), 2, f"retry resends in {fi.qual}")
+    seen = set()
+    for s in others:
+        rf, af = s.args.get("redirect"), s.args.get("assert_same_host")
+        okf = rf is not None and "entry:redirect" in rf.tags
+        oka = af is not None and "entry:assert_same_host" in af.tags
+        k = (s.node.lineno, okf, oka)
+        if k in seen:
+            continue
+        seen.add(k)
+        ctx.ob(R3, fi.qual, f"retry resend at line {s.node.lineno} keeps the caller's redirect flag", okf,
+               "" if okf else "the retried attempt runs with the default redirect=True: a 3xx answer to the retry is followed although the caller passed redirect=False (the manager always does)", witness=s.st.witness(), node=s.node)
+        ctx.ob(R3, fi.qual, f"retry resend at line {s.node.lineno} keeps the caller's assert_same_host", oka,
+               "" if oka else "the retried attempt runs with the default assert_same_host", witness=s.st.witness(), node=s.node)
+
     # manager forces redirect / assert_same_host off in the pool-level call
     rule, fi, outs = mgr
     pcs = [s for s in rule.sites if s.kind == "poolcall"]
